@@ -58,7 +58,15 @@ fn observed(imports: &[usize], decls: &[usize], body: usize) -> Document {
         Ty::custom("d.XQ"),
         Ty::custom("e.Part"),
     ];
-    if body == 0 {
+    if body >= 2 {
+        // size dimension: the import d.Deep is used only 20 levels down
+        let mut t = Ty::custom("Deep");
+        for k in 0..20 {
+            t = crate::model::gen::wrap(if k % 3 == 2 { 2 } else { 1 }, t);
+        }
+        fields[1] = t;
+    }
+    if body == 0 || body == 2 {
         // the declarations are used too
         fields.push(Ty::custom("Q"));
         fields.push(Ty::list(Ty::list(Ty::custom("R"))));
@@ -69,6 +77,15 @@ fn observed(imports: &[usize], decls: &[usize], body: usize) -> Document {
     let mut d = Document::new("obs", item);
     d.imports = imports.iter().map(|i| Import::new(IMPORTS[*i])).collect();
     d.decls = decls.iter().map(|i| Decl::new(DECLS[*i])).collect();
+    if body >= 2 {
+        // size dimension: 24 more imports (unresolvable, each once) and 12 more declarations
+        for k in 0..24 {
+            d.imports.insert((k * 7) % (d.imports.len() + 1), Import::new(&format!("pad.k{}.Pad{k}", k % 3)));
+        }
+        for k in 0..12 {
+            d.decls.push(Decl::new(&format!("PadDecl{k}")));
+        }
+    }
     d
 }
 
@@ -99,7 +116,7 @@ fn make_case(imports: &[usize], decls: &[usize], body: usize, ctx: usize, h: His
             "imports={:?} declarations={:?} body={} context={} history={h:?}",
             imports.iter().map(|i| IMPORTS[*i]).collect::<Vec<_>>(),
             decls.iter().map(|i| DECLS[*i]).collect::<Vec<_>>(),
-            ["uses Q and R", "uses no declaration"][body],
+            ["uses Q and R", "uses no declaration", "uses Q and R; 24 more imports, Deep 20 levels down", "uses no declaration; 24 more imports, Deep 20 levels down"][body],
             ["all defined", "d.Used not in the project"][ctx]
         ),
         files: files.iter().map(|f| (f.id.clone(), f.text.clone())).collect(),
@@ -137,7 +154,8 @@ pub fn run(tier: Tier, seed: u64) -> i32 {
             n,
             3,
             |i| {
-                let body = i % 2;
+                // every fifth case in the "large header" variant of its body
+                let body = i % 2 + if (i / 4) % 5 == 4 { 2 } else { 0 };
                 let ctx = (i / 2) % 2;
                 let di = (i / 4) % nd;
                 let ii = i / (4 * nd);
